@@ -1,5 +1,6 @@
 import Proofs.C51Sums
 import Proofs.C51GenEq
+import Proofs.C51BatchGenEq
 import Proofs.DuelingGenEq
 import Proofs.DuelingReal
 
@@ -767,5 +768,291 @@ theorem C18_source_translation_dueling_log_real (P : DuelingGen.Prims ℝ) (hexp
   exact this
 
 end source_translation_dueling
+
+end Duel
+
+/-! ## Batch level of `RainbowDQN.learn` (importance weights, mean, priorities, shapes)
+
+Model: `elemLoss / scalarLoss / newPriorities / retIdxs / columnLoss` at the end of `Model/C51.lean`.  Source translation:
+`harness/py2lean_c51batch.py` executes `learn` abstractly over tensors with SHAPES (symbolic `B`, torch broadcasting)
+and values, on all eight paths of (`per`, `n_experiences is not None`, `combined_reward`) →
+`Gen/C51BatchGen.lean`; `Proofs/C51BatchGenEq.lean` proves generated = model for every batch, every per-row loss
+function and every weight column, and the shapes `(B,)` for every `B`. -/
+namespace C51
+open Finset
+
+section batch
+
+/-- **(i) the scalar loss is the batch mean of the importance-weighted per-row losses**: with `B` element-wise
+    losses and `B` weights (both `(B,)`), under PER `loss = (1/B) Σ_i w_i · ℓ_i` — row `i`'s loss meets row `i`'s
+    weight and no other —, without PER `loss = (1/B) Σ_i ℓ_i`; for every `B` and every loss / weight vector -/
+theorem C18_batch_loss_is_weighted_mean (el w : List Rat) (B : Nat) (hel : el.length = B) (hw : w.length = B) :
+    scalarLoss true el w = (∑ i ∈ range B, w.getD i 0 * el.getD i 0) / (B : Rat) ∧
+    scalarLoss false el w = (∑ i ∈ range B, el.getD i 0) / (B : Rat) := by
+  constructor
+  · have h := dot_eq_sum el w B hel hw
+    unfold dot at h
+    simp only [scalarLoss, mean, if_true]
+    rw [h]
+    have : (List.zipWith (· * ·) el w).length = B := by simp [hel, hw]
+    rw [this]
+    congr 1
+    apply Finset.sum_congr rfl
+    intro i _
+    ring
+  · have h := sum_getD el
+    rw [hel] at h
+    simp only [scalarLoss, mean, Bool.false_eq_true, if_false, hel]
+    rw [h]
+
+/-- what a `(B, 1)` weight column would do instead (`columnLoss`: the `(B, B)` outer product, mean over `B²`
+    entries = `(1/B²)(Σ ℓ)(Σ w)`): on a two-row batch it differs from the weighted mean — the sample with weight 0
+    is not ignored, the sample with loss 0 is not either -/
+theorem C18_batch_column_weights_witness :
+    columnLoss [1, 0] [1, 0] = 1 / 4 ∧ scalarLoss true [1, 0] [1, 0] = 1 / 2 ∧
+    columnLoss [1, 0] [0, 1] = 1 / 4 ∧ scalarLoss true [1, 0] [0, 1] = 0 := by decide +kernel
+
+/-- **(ii) the priorities are `ℓ_i + prior_eps`, in the order of the batch**, one per row, hence in the order of
+    the returned indices; strictly positive whenever `prior_eps > 0` and every `ℓ_i ≥ 0` -/
+theorem C18_batch_priorities (eps : Rat) (el : List Rat) (idx : List Nat) (ns : Bool) (hlen : idx.length = el.length) :
+    ∃ pr, newPriorities true eps el = some pr ∧ retIdxs true ns idx = some idx ∧ pr.length = idx.length ∧
+      (∀ i, i < el.length → pr.getD i 0 = el.getD i 0 + eps) ∧
+      (0 < eps → (∀ x ∈ el, 0 ≤ x) → ∀ p ∈ pr, 0 < p) ∧
+      newPriorities false eps el = none := by
+  refine ⟨el.map (· + eps), by simp [newPriorities], by simp [retIdxs], by simp [hlen], ?_, ?_, by simp [newPriorities]⟩
+  · intro i hi
+    rw [List.getD_eq_getElem _ _ (by simpa using hi), List.getD_eq_getElem _ _ hi]
+    simp
+  · intro he hx p hp
+    obtain ⟨x, hxm, rfl⟩ := List.mem_map.mp hp
+    have := hx x hxm
+    linarith
+
+theorem dot_nonpos : ∀ (a b : List Rat), (∀ x ∈ a, 0 ≤ x) → (∀ y ∈ b, y ≤ 0) → dot a b ≤ 0
+  | [], _, _, _ => by simp [dot]
+  | _ :: _, [], _, _ => by simp [dot]
+  | x :: xs, y :: ys, ha, hb => by
+    have ih := dot_nonpos xs ys (fun z hz => ha z (List.mem_cons_of_mem _ hz)) (fun z hz => hb z (List.mem_cons_of_mem _ hz))
+    unfold dot at ih ⊢
+    simp only [List.zipWith_cons_cons, List.sum_cons]
+    have h1 := ha x (List.mem_cons_self)
+    have h2 := hb y (List.mem_cons_self)
+    nlinarith [mul_nonneg h1 (neg_nonneg.mpr h2)]
+
+theorem tri_nonneg (t : Rat) : 0 ≤ tri t := by unfold tri; exact le_max_left _ _
+
+/-- every atom of a projected row is non-negative when the source distribution is -/
+theorem projOne_nonneg (c : Cfg) (hc : c.Valid) (g : Rat) (row : Row) (hp : ∀ x ∈ row.p, 0 ≤ x) :
+    ∀ x ∈ projOne c g row, 0 ≤ x := by
+  intro x hx
+  obtain ⟨k, hk, rfl⟩ := List.getElem_of_mem hx
+  have hk' : k < c.N := by simpa [length_projOne] using hk
+  have := getD_projOne_tri c hc.1 g row k hk'
+  rw [List.getD_eq_getElem _ _ hk] at this
+  rw [this]
+  apply Finset.sum_nonneg
+  intro j _
+  apply mul_nonneg _ (tri_nonneg _)
+  by_cases hj : j < row.p.length
+  · rw [List.getD_eq_getElem _ _ hj]; exact hp _ (List.getElem_mem hj)
+  · rw [List.getD_eq_default _ _ (by omega)]
+
+/-- **the per-row loss is non-negative**: the cross-entropy of a projection of a non-negative target distribution
+    against log-probabilities `≤ 0` (i.e. online probabilities `≤ 1`, which the soft-max of the dueling head gives:
+    `C18_dueling_softmax_is_probability`) is `≥ 0` — for every reward, done flag, discount and support -/
+theorem C18_cross_entropy_nonneg (c : Cfg) (hc : c.Valid) (g : Rat) (s : Sample)
+    (hp : ∀ x ∈ s.row.p, 0 ≤ x) (hlog : ∀ y ∈ s.logpA, y ≤ 0) : 0 ≤ crossEntropy c g s := by
+  unfold crossEntropy
+  have := dot_nonpos _ _ (projOne_nonneg c hc g s.row hp) hlog
+  linarith
+
+/-- **(iii) how the two batches combine**: 1-step alone → `ℓ(one_i, γ)`; n-step without `combined_reward` →
+    `ℓ(nb_i, γⁿ)`; with `combined_reward` → the SUM of the two losses of the SAME row `i` -/
+theorem C18_batch_elementwise {R : Type} (ℓ : R → Rat → Rat) (comb : Bool) (g : Rat) (n : Nat) (one nb : List R) :
+    elemLoss ℓ comb g n one none = one.map (ℓ · g) ∧
+    elemLoss ℓ false g n one (some nb) = nb.map (ℓ · (g ^ n)) ∧
+    elemLoss ℓ true g n one (some nb) = List.zipWith (fun e ne => ℓ e g + ℓ ne (g ^ n)) one nb := by
+  refine ⟨rfl, by simp [elemLoss], ?_⟩
+  simp only [elemLoss, if_true]
+  rw [List.zipWith_map_left, List.zipWith_map_right]
+
+theorem zipWith_add_nonneg : ∀ (a b : List Rat), (∀ x ∈ a, 0 ≤ x) → (∀ y ∈ b, 0 ≤ y) →
+    ∀ z ∈ List.zipWith (· + ·) a b, 0 ≤ z
+  | [], _, _, _ => by simp
+  | _ :: _, [], _, _ => by simp
+  | x :: xs, y :: ys, ha, hb => by
+    intro z hz
+    simp only [List.zipWith_cons_cons, List.mem_cons] at hz
+    rcases hz with rfl | hz
+    · exact add_nonneg (ha x List.mem_cons_self) (hb y List.mem_cons_self)
+    · exact zipWith_add_nonneg xs ys (fun z hz => ha z (List.mem_cons_of_mem _ hz))
+        (fun z hz => hb z (List.mem_cons_of_mem _ hz)) z hz
+
+/-- the element-wise loss of the batch is non-negative when every per-row loss is -/
+theorem elemLoss_nonneg {R : Type} (ℓ : R → Rat → Rat) (comb : Bool) (g : Rat) (n : Nat) (one : List R)
+    (nst : Option (List R)) (h1 : ∀ r ∈ one, 0 ≤ ℓ r g) (hn : ∀ nb, nst = some nb → ∀ r ∈ nb, 0 ≤ ℓ r (g ^ n)) :
+    ∀ x ∈ elemLoss ℓ comb g n one nst, 0 ≤ x := by
+  have m1 : ∀ x ∈ one.map (ℓ · g), 0 ≤ x := by
+    intro x hx; obtain ⟨r, hr, rfl⟩ := List.mem_map.mp hx; exact h1 r hr
+  cases nst with
+  | none => exact m1
+  | some nb =>
+    have m2 : ∀ x ∈ nb.map (ℓ · (g ^ n)), 0 ≤ x := by
+      intro x hx; obtain ⟨r, hr, rfl⟩ := List.mem_map.mp hx; exact hn nb rfl r hr
+    cases comb
+    · simpa [elemLoss] using m2
+    · simp only [elemLoss, if_true]; exact zipWith_add_nonneg _ _ m1 m2
+
+theorem elemLoss_length {R : Type} (ℓ : R → Rat → Rat) (comb : Bool) (g : Rat) (n : Nat) (one : List R)
+    (nst : Option (List R)) (hlen : ∀ nb, nst = some nb → nb.length = one.length) :
+    (elemLoss ℓ comb g n one nst).length = one.length := by
+  cases nst with
+  | none => simp [elemLoss]
+  | some nb => cases comb <;> simp [elemLoss, hlen nb rfl]
+
+end batch
+
+/-! ### the batch level over the generated code (`Gen/C51BatchGen.lean`, `harness/py2lean_c51batch.py`) composed with
+    the generated per-row loss (`C51Gen.dqn_loss`, `harness/py2lean_c51.py`) -/
+section batch_nets
+variable {Obs : Type} (actor : Obs → List Rat) (actorLog actorT : Obs → List (List Rat))
+
+/-- the generated `_dqn_loss` of one row, as the `loss` parameter of the generated batch code -/
+def genRowLoss (c : Cfg) : Obs → Nat → Rat → Obs → Rat → Rat → Rat := fun o a r no d g =>
+  C51Gen.dqn_loss (actor := actor) (actor_q_False_log_True := actorLog) (actor_target_q_False := actorT)
+    (C51Gen.delta_z0 c.N c.vmax c.vmin) c.N (C51Gen.support0 c.N c.vmax c.vmin) c.vmax c.vmin o a r no d g
+
+/-- a row of the batch-level translation as a row of the per-row translation (same fields) -/
+def toGenRow (r : BRow Obs) : C51Gen.Row Obs :=
+  { obs := r.obs, action := r.action, reward := r.reward, next_obs := r.next_obs, done := r.done,
+    weights := r.weights, idxs := r.idxs }
+
+/-- the model's cross-entropy of row `r` alone -/
+def ceRow (c : Cfg) (r : BRow Obs) (g : Rat) : Rat :=
+  crossEntropy c g (sampleOf actor actorLog actorT (toGenRow r))
+
+theorem rowFn_gen_eq (c : Cfg) (r : BRow Obs) (g : Rat) (hlog : LogOK actorLog c (toGenRow r)) :
+    rowFn (genRowLoss actor actorLog actorT c) r g = ceRow actor actorLog actorT c r g :=
+  (C18_source_translation_loss_is_cross_entropy actor actorLog actorT c g (toGenRow r) hlog).1
+
+theorem elemLoss_gen_eq (c : Cfg) (comb : Bool) (g : Rat) (n : Nat) (one : List (BRow Obs))
+    (nst : Option (List (BRow Obs))) (h1 : ∀ e ∈ one, LogOK actorLog c (toGenRow e))
+    (hn : ∀ nb, nst = some nb → ∀ e ∈ nb, LogOK actorLog c (toGenRow e)) :
+    elemLoss (rowFn (genRowLoss actor actorLog actorT c)) comb g n one nst
+      = elemLoss (ceRow actor actorLog actorT c) comb g n one nst := by
+  have m1 : one.map (rowFn (genRowLoss actor actorLog actorT c) · g) = one.map (ceRow actor actorLog actorT c · g) :=
+    List.map_congr_left fun e he => rowFn_gen_eq actor actorLog actorT c e g (h1 e he)
+  cases nst with
+  | none => simp only [elemLoss]; exact m1
+  | some nb =>
+    have m2 : nb.map (rowFn (genRowLoss actor actorLog actorT c) · (g ^ n))
+        = nb.map (ceRow actor actorLog actorT c · (g ^ n)) :=
+      List.map_congr_left fun e he => rowFn_gen_eq actor actorLog actorT c e (g ^ n) (hn nb rfl e he)
+    simp only [elemLoss, m1, m2]
+
+/-- **(i) over the generated code: the scalar loss `learn` returns.**  For every batch size `B`, every batch and
+    every weight column: with `ℓ_i` the element-wise loss of row `i` — the cross-entropy of row `i` ALONE
+    (`C18_source_translation_loss_is_cross_entropy`), with `γ`, with `γ ^ n_step` on the n-step row `i`, or their sum
+    (`C18_batch_elementwise`) — the generated `learn` returns `(1/B) Σ_i w_i · ℓ_i` under PER (`w_i` the importance
+    weight of the SAME row) and `(1/B) Σ_i ℓ_i` without -/
+theorem C18_source_translation_batch_loss (h : Hyper) (B : Nat) (one : List (BRow Obs))
+    (nst : Option (List (BRow Obs))) (per : Bool) (hB : one.length = B)
+    (hlen : ∀ nb, nst = some nb → nb.length = one.length)
+    (h1 : ∀ e ∈ one, LogOK actorLog h.cfg (toGenRow e))
+    (hn : ∀ nb, nst = some nb → ∀ e ∈ nb, LogOK actorLog h.cfg (toGenRow e)) :
+    let el := elemLoss (ceRow actor actorLog actorT h.cfg) h.combined h.gamma h.nStep one nst
+    C51BatchGen.learn_ret0 (genRowLoss actor actorLog actorT h.cfg) h.combined h.gamma h.nStep h.priorEps one nst per
+      = (if per then (∑ i ∈ range B, (one.map (·.weights)).getD i 0 * el.getD i 0) / (B : Rat)
+         else (∑ i ∈ range B, el.getD i 0) / (B : Rat)) ∧ el.length = B := by
+  intro el
+  have hel : el.length = B := by rw [← hB]; exact elemLoss_length _ _ _ _ _ _ hlen
+  refine ⟨?_, hel⟩
+  rw [gen_learn_ret0_batch_eq, elemLoss_gen_eq actor actorLog actorT h.cfg _ _ _ one nst h1 hn]
+  obtain ⟨a, b⟩ := C18_batch_loss_is_weighted_mean el (one.map (·.weights)) B hel (by simpa using hB)
+  cases per
+  · simpa using b
+  · simpa using a
+
+/-- **(ii) over the generated code: what goes back to the prioritised buffer.**  Under PER the generated `learn`
+    returns the 1-step batch's indices and, in the same row order and with the same length, `ℓ_i + prior_eps`;
+    they are strictly positive when `prior_eps > 0`, the target distributions are non-negative and the online
+    log-probabilities are `≤ 0` — the precondition `priority > 0` of `update_priorities` (C11); without PER no
+    priorities are returned -/
+theorem C18_source_translation_batch_priorities (h : Hyper) (hc : h.cfg.Valid) (one : List (BRow Obs))
+    (nst : Option (List (BRow Obs))) (hlen : ∀ nb, nst = some nb → nb.length = one.length)
+    (h1 : ∀ e ∈ one, LogOK actorLog h.cfg (toGenRow e))
+    (hn : ∀ nb, nst = some nb → ∀ e ∈ nb, LogOK actorLog h.cfg (toGenRow e)) :
+    let el := elemLoss (ceRow actor actorLog actorT h.cfg) h.combined h.gamma h.nStep one nst
+    let gen2 := C51BatchGen.learn_ret2 (genRowLoss actor actorLog actorT h.cfg) h.combined h.gamma h.nStep h.priorEps
+    let gen1 := C51BatchGen.learn_ret1 (genRowLoss actor actorLog actorT h.cfg) h.combined h.gamma h.nStep h.priorEps
+    gen2 one nst true = some (el.map (· + h.priorEps)) ∧
+    gen1 one nst true = some (one.map (·.idxs)) ∧
+    (el.map (· + h.priorEps)).length = (one.map (·.idxs)).length ∧
+    gen2 one nst false = none ∧
+    gen1 one nst false = (if nst.isSome then some (one.map (·.idxs)) else none) ∧
+    (0 < h.priorEps →
+      (∀ e, (e ∈ one ∨ ∃ nb, nst = some nb ∧ e ∈ nb) →
+        (∀ x ∈ (sampleOf actor actorLog actorT (toGenRow e)).row.p, 0 ≤ x) ∧
+        (∀ y ∈ (sampleOf actor actorLog actorT (toGenRow e)).logpA, y ≤ 0)) →
+      ∀ p ∈ el.map (· + h.priorEps), 0 < p) := by
+  intro el gen2 gen1
+  have e2 : ∀ per, gen2 one nst per = newPriorities per h.priorEps el := by
+    intro per
+    simp only [gen2, el]
+    rw [gen_learn_ret2_batch_eq, elemLoss_gen_eq actor actorLog actorT h.cfg _ _ _ one nst h1 hn]
+  have e1 : ∀ per, gen1 one nst per = retIdxs per nst.isSome (one.map (·.idxs)) := by
+    intro per; simp only [gen1]; rw [gen_learn_ret1_batch_eq]
+  refine ⟨by rw [e2]; rfl, by rw [e1]; rfl, ?_, by rw [e2]; rfl, by rw [e1]; simp [retIdxs], ?_⟩
+  · simp only [List.length_map, el]
+    exact elemLoss_length _ _ _ _ _ _ hlen
+  · intro he hrows p hp
+    obtain ⟨x, hx, rfl⟩ := List.mem_map.mp hp
+    have := elemLoss_nonneg (ceRow actor actorLog actorT h.cfg) h.combined h.gamma h.nStep one nst
+      (fun r hr => C18_cross_entropy_nonneg h.cfg hc _ _ (hrows r (Or.inl hr)).1 (hrows r (Or.inl hr)).2)
+      (fun nb hnb r hr => C18_cross_entropy_nonneg h.cfg hc _ _ (hrows r (Or.inr ⟨nb, hnb, hr⟩)).1
+        (hrows r (Or.inr ⟨nb, hnb, hr⟩)).2) x hx
+    show 0 < x + h.priorEps
+    linarith
+
+/-- **shapes, over the generated code, for every batch size `B`**: on every path the tensor whose mean is the
+    returned loss has shape `(B,)` — `(B,)` losses times the `(B, 1)` weights flattened to `(B,)`; no `(B, B)`
+    broadcast —, the priorities are `(B,)` like the indices; and what the un-flattened `(B, 1)` column would give:
+    shape `(B, B)`, and on a two-row batch a different value (the generated broadcast `bzip`, decided) -/
+theorem C18_source_translation_batch_shapes (B : Nat) (per ns comb : Bool) :
+    C51BatchGen.mean_arg_shape B per ns comb = some [B] ∧
+    C51BatchGen.ret2_shape B per ns comb = (if per then some [B] else none) ∧
+    C51BatchGen.ret1_shape B per ns comb = (if per || ns then some [B] else none) ∧
+    C51BatchGen.bcast (some [B]) (some [B, 1]) = some [B, B] ∧
+    C51BatchGen.mean (C51BatchGen.bzip (fun x y => x * y) (some [2]) [1, 0] (some [2, 1]) [1, 0]) = 1 / 4 ∧
+    C51BatchGen.mean (List.zipWith (fun x y => x * y) [1, 0] [1, 0]) = 1 / 2 :=
+  ⟨gen_mean_arg_shape_eq B per ns comb, gen_ret2_shape_eq B per ns comb, gen_ret1_shape_eq B per ns comb,
+   bcast_vec_col B, by decide +kernel, by decide +kernel⟩
+
+/-- non-vacuity: a two-row PER batch with a constant per-row loss function -/
+example : C51BatchGen.learn_ret0 (Obs := Unit) (fun _ _ r _ _ g => r * g) true (1/2) 2 (1/8)
+    [⟨(), 0, 4, (), 0, 1, 7⟩, ⟨(), 0, 8, (), 0, 1/2, 3⟩] (some [⟨(), 0, 4, (), 0, 1, 7⟩, ⟨(), 0, 8, (), 0, 1/2, 3⟩]) true
+      = (1 * (2 + 1) + 1/2 * (4 + 2)) / 2 := by decide +kernel
+example : C51BatchGen.learn_ret2 (Obs := Unit) (fun _ _ r _ _ g => r * g) false (1/2) 2 (1/8)
+    [⟨(), 0, 4, (), 0, 1, 7⟩, ⟨(), 0, 8, (), 0, 1/2, 3⟩] none true = some [2 + 1/8, 4 + 1/8] := by decide +kernel
+
+end batch_nets
+end C51
+
+namespace Duel
+
+/-- **the hypothesis `log p ≤ 0` of `C18_cross_entropy_nonneg` / `C18_source_translation_batch_priorities` is what
+    the dueling head delivers**: over ℝ every entry of `forward(log=True)` (`log_softmax` of a row of logits, =
+    the logarithm of a soft-max probability, `C18_dueling_log_real`) is `≤ 0`, because every soft-max entry is
+    positive and at most the row sum `1` (`C18_dueling_softmax_is_probability`) -/
+theorem C18_dueling_log_nonpos (row : List ℝ) : ∀ y ∈ logSoftmax realFn row, y ≤ 0 := by
+  intro y hy
+  rw [logSoftmax_eq_log_softmax] at hy
+  obtain ⟨p, hp, rfl⟩ := List.mem_map.mp hy
+  have hne : row ≠ [] := by
+    intro e; rw [e] at hp; simp [softmax] at hp
+  have hpos := softmax_pos realFn realFn_exp_pos row
+  have hle : p ≤ (softmax realFn row).sum := List.single_le_sum (fun x hx => (hpos x hx).le) p hp
+  rw [softmax_sum realFn realFn_exp_pos row hne] at hle
+  exact Real.log_nonpos (hpos p hp).le hle
 
 end Duel
